@@ -8,13 +8,68 @@ COQ_DEPS = []
 PROFILES = ["debug", "release"]
 CORR_IMPORT = "From RlibV Require Import C08.Model C08.Spec C08.Corr.\nOpen Scope Z_scope."
 AUDIT_IMPORT = ("From Coq Require Import ZArith NArith List Bool.\nImport ListNotations.\n"
-                "From RlibV Require Import C08.Model C08.Spec C08.Corr C08.Properties.\nOpen Scope Z_scope.")
+                "From RlibV Require Import C08.Model C08.Spec C08.Corr C08.ProofsCore C08.ProofsLoops C08.ProofsInt "
+                "C08.ProofsOps C08.ProofsSpec C08.ProofsCorr C08.Flat C08.OldVariant C08.Properties.\nOpen Scope Z_scope.")
 CASE_TYPE = "case"
 EXPLAIN = "explain"
 AXIOM_ALLOW = []
 SHARD = 2500
 SEARCH_MAX = 12000
 THEOREMS = [
+    ("c08_initial", "forall (BUF : N) (src : list event), (1 <= BUF)%N -> wf_src src -> represents (new_reader BUF) src (data_of src)"),
+    ("c08_simulation_step",
+     "forall (o : op) (r : reader) (src : list event) (l : list Z), op_ok o -> represents r src l -> Z.of_nat (length l) < 2 ^ 130 -> "
+     "match spec_op o l with "
+     "| SRet v l' => exists r' src', run_op o r src = Ret v r' src' /\\ (inv r' src' /\\ live r' ++ data_of src' = l') "
+     "| SPanic => run_op o r src = Panic end"),
+    ("c08_refines_parser",
+     "forall (BUF : N) (src : list event) (ops : list op), (1 <= BUF)%N -> wf_src src -> Forall op_ok ops -> "
+     "Z.of_nat (length (data_of src)) < 2 ^ 130 -> run BUF src ops = spec_run ops (data_of src)"),
+    ("c08_schedule_independent",
+     "forall (BUF1 BUF2 : N) (src1 src2 : list event) (ops : list op), (1 <= BUF1)%N -> (1 <= BUF2)%N -> "
+     "Forall (fun e => e <> Data []) src1 -> Forall (fun e => e <> Data []) src2 -> Forall op_ok ops -> "
+     "data_of src1 = data_of src2 -> Z.of_nat (length (data_of src1)) < 2 ^ 130 -> "
+     "run BUF1 src1 ops = run BUF2 src2 ops /\\ run BUF1 src1 ops = spec_run ops (data_of src1)"),
+    ("c08_parse_no_overflow",
+     "forall (t : ity) (neg : bool) (tok : list Z), 1 <= bits t -> tok <> [] -> forallb digit tok = true -> "
+     "fits t (if neg then - dec_value tok else dec_value tok) = true -> "
+     "fold_opt (int_acc t neg) (0, false) tok = Some (if neg then - dec_value tok else dec_value tok, true)"),
+    ("c08_read_int_spec",
+     "forall (t : ity) (r : reader) (src : list event) (l : list Z), 1 <= bits t -> represents r src l -> "
+     "Z.of_nat (length l) < 2 ^ 130 -> match spec_int t l with "
+     "| SRet v l' => exists r' src', read_int t r src = Ret v r' src' /\\ represents r' src' l' "
+     "| SPanic => read_int t r src = Panic end"),
+    ("c08_read_line_spec",
+     "(forall (r : reader) (src : list event) (l : list Z), represents r src l -> Z.of_nat (length l) < 2 ^ 130 -> "
+     "exists r' src', read_line r src = Ret (fst (spec_line l)) r' src' /\\ represents r' src' (snd (spec_line l))) "
+     "/\\ (forall l, fst (spec_line l) = None <-> l = []) "
+     "/\\ (forall x rest, Forall (fun c => c <> 10) x -> last x 0 <> 13 -> spec_line (x ++ 10 :: rest) = (Some x, rest)) "
+     "/\\ (forall x rest, Forall (fun c => c <> 10) x -> spec_line (x ++ 13 :: 10 :: rest) = (Some x, rest)) "
+     "/\\ (forall x, Forall (fun c => c <> 10) x -> x <> [] -> spec_line x = (Some x, []))"),
+    ("c08_read_lines_spec",
+     "forall (r : reader) (src : list event) (l : list Z), represents r src l -> Z.of_nat (length l) < 2 ^ 130 -> "
+     "exists r' src', read_lines r src = Ret (spec_lines l) r' src' /\\ represents r' src' []"),
+    ("c08_is_eof_spec",
+     "forall (r : reader) (src : list event) (l : list Z), represents r src l -> Z.of_nat (length l) < 2 ^ 130 -> "
+     "(exists r' src', is_eof r src = Ret (fst (spec_is_eof l)) r' src' /\\ represents r' src' (snd (spec_is_eof l))) "
+     "/\\ (fst (spec_is_eof l) = true <-> Forall (fun c => ws c = true) l) /\\ snd (spec_is_eof l) = drop_ws l"),
+    ("c08_model_implies_spec", "forall c : case, in_scope c -> model_check c = true -> spec_check c = true"),
+    ("c08_state_is_flat_array",
+     "(forall (r : reader) (src : list event), flat_refill (abs r) src = (abs (fst (refill r src)), snd (refill r src))) "
+     "/\\ (forall r : reader, at_begin r = nth_error (fbuf (abs r)) (fbegin (abs r))) "
+     "/\\ (forall r r' : reader, advance r = Some r' -> "
+     "abs r' = mkFlat (fbuf (abs r)) (S (fbegin (abs r))) (fend (abs r)) (feof (abs r))) "
+     "/\\ (forall BUF : N, abs (new_reader BUF) = mkFlat (zeros BUF) 0 0 false)"),
+    ("c08_old_stale_refuted",
+     "exists src1 src2 : list event, Forall (fun e => e <> Data []) src1 /\\ Forall (fun e => e <> Data []) src2 /\\ "
+     "data_of src1 = data_of src2 /\\ "
+     "value (read_lines_old (new_reader 65536) src1) = Some [[]; [97; 98; 99]] /\\ "
+     "value (read_lines_old (new_reader 65536) src2) = Some [[]; [97; 98; 99; 13]] /\\ "
+     "value (read_lines (new_reader 65536) src1) = Some [[]; [97; 98; 99; 13]] /\\ "
+     "value (read_lines (new_reader 65536) src2) = Some [[]; [97; 98; 99; 13]]"),
+    ("c08_old_interrupted_refuted",
+     "forall (BUF : N) (src : list event), src_read_old (post (new_reader BUF)) (Intr :: src) = None "
+     "/\\ src_read (post (new_reader BUF)) (Intr :: src) = src_read (post (new_reader BUF)) src"),
 ]
 RULE = ("inputs from a token/whitespace grammar (extreme and near-extreme values of the 12 integer types, leading zeros, -0, "
         "String and char tokens incl. VT/DEL/high bytes, separators SP TAB LF FF CR CRLF, lines with lone CR, empty lines, "
@@ -245,29 +300,37 @@ def shrink(c):
     out = []
 
     def mk(**kw):
-        d = dict(c)
+        d = {k: v for k, v in c.items() if k != "note"}
         d.update(kw)
         return d
     ops = c["ops"]
     for i in range(len(ops)):
         out.append(mk(ops=ops[:i] + ops[i + 1:]))
+    for i, o in enumerate(ops):
+        if o.startswith("v:"):
+            _, k, t = o.split(":")
+            for k2 in sorted({int(k) // 2, int(k) - 1}):
+                if 0 <= k2 < int(k):
+                    out.append(mk(ops=ops[:i] + ["v:%d:%s" % (k2, t)] + ops[i + 1:]))
     if "I" in sched:
         out.append(mk(sched=[e for e in sched if e != "I"]))
-    if len([e for e in sched if e != "I"]) > 1:
+    ds = [e for e in sched if e != "I"]
+    if len(ds) > 1:
         out.append(mk(sched=[n]))
-        # merge two neighbouring chunks
-        ds = [e for e in sched if e != "I"]
-        for i in range(min(len(ds) - 1, 6)):
+        for i in range(min(len(ds) - 1, 4)):
             out.append(mk(sched=ds[:i] + [ds[i] + ds[i + 1]] + ds[i + 2:]))
-    # drop one input byte (long inputs: drop a large block first)
-    if n > 64:
-        for cut in (n // 2, n // 4, 1024, 64):
-            if cut < n:
-                out.append(mk(input=(data[:8] + data[8 + cut:]).hex(), sched=[max(1, s) if s != "I" else s for s in sched]))
-                out.append(mk(input=data[cut:].hex()))
-    else:
-        for i in range(n):
-            out.append(mk(input=(data[:i] + data[i + 1:]).hex()))
+    # remove input bytes: large blocks first, then single bytes (schedules are re-clipped by norm_sched)
+    blocks = []
+    k = n // 2
+    while k >= 2:
+        blocks += [(0, k), (n - k, n), ((n - k) // 2, (n - k) // 2 + k)]
+        k //= 2
+    for a, b in blocks[:12]:
+        out.append(mk(input=(data[:a] + data[b:]).hex()))
+    for i in range(min(n, 16)):
+        out.append(mk(input=(data[:i] + data[i + 1:]).hex()))
+    for i in range(max(16, n - 8), n):
+        out.append(mk(input=(data[:i] + data[i + 1:]).hex()))
     return out
 
 
@@ -438,7 +501,7 @@ HAND = [
     ("1 2 3", ["v:3:u8"]), ("1\n\n2\n", ["i32", "L"]), (" \r\n ", ["e", "l"]), ("ab\rcd\n", ["L"]),
     ("255 0", ["u8", "u8", "e"]), ("\r\r\n\r", ["L"]), ("-1\r\n", ["i16", "l", "l"]), ("7 \r\nq", ["u8", "l", "l", "e"]),
     ("\r", ["l", "l"]), ("a\r", ["L", "e"]), ("\n\n", ["l", "l", "l"]), ("", ["e", "l", "L"]), ("-32768", ["i16"]),
-    ("65535\x0c", ["u16", "e"]), ("ab\r\n", ["s", "l", "l"]), ("-\r", ["s", "L"]), ("1\r2", ["l"]),
+    ("65535\x0c", ["u16", "e"]), ("a\x0bb c", ["s", "s", "e"]), ("\x0b1", ["c", "u8"]), ("ab\r\n", ["s", "l", "l"]), ("-\r", ["s", "L"]), ("1\r2", ["l"]),
 ]
 # the two defects repaired in /repo (known_findings.txt): kept so that a regression is caught
 LONG_HAND = [
@@ -514,7 +577,7 @@ def generate(rng, tier):
     quick = (tier == "quick")
     cases = []
     # 1. hand-picked short inputs: every chunking, Interrupted at every read index of the bytewise schedule
-    lim = 7 if quick else 12
+    lim = 7 if quick else 11
     for d, ops in HAND:
         data = d.encode("latin-1")
         n = len(data)
@@ -540,7 +603,7 @@ def generate(rng, tier):
         for s in with_intr_everywhere([1] * n)[:: (3 if quick else 1)]:
             cases.append(case(data, s, ops))
     # 2. random in-contract scripts x targeted and random schedules
-    nrand = 260 if quick else 6000
+    nrand = 260 if quick else 1500
     for i in range(nrand):
         data, ops = gen_script(rng, rng.range(1, 6), only_small=rng.chance(1, 2))
         n = len(data)
@@ -554,7 +617,7 @@ def generate(rng, tier):
             cases.append(case(data, [b - a for a, b in zip([0] + cuts, cuts + [n])], ops))   # cut at every delicate place
         for _ in range(2 if quick else 4):
             cases.append(case(data, random_sched(rng, n), ops))
-        if n <= lim and not quick:
+        if n <= 9 and not quick and i % 5 == 0:
             for comp in compositions(n):
                 cases.append(case(data, comp, ops))
         if rng.chance(1, 4 if quick else 2):
@@ -569,17 +632,86 @@ def generate(rng, tier):
     # 4. the real buffer boundary
     cases += boundary_cases(rng, tier)
     # 5. out of contract: model = implementation only
-    cases += ooc_cases(rng, 120 if quick else 1500)
+    cases += ooc_cases(rng, 120 if quick else 1200)
     return cases
+
+
+# ----------------------------------------------------------------------------- implementation-level search
+def py_lines(data):
+    """reference for read_lines, written independently of the Coq specification"""
+    out = []
+    parts = data.split(b"\n")
+    for i, ln in enumerate(parts):
+        if i == len(parts) - 1:
+            if ln:
+                out.append(ln)
+        else:
+            out.append(ln[:-1] if ln.endswith(b"\r") else ln)
+    return out
+
+
+def extra(ctx, known):
+    """Large inputs (thorough tier only), too big for the Coq model: the implementation's results under very different
+    delivery schedules must be identical and equal to a Python reference.  Never counted as proof."""
+    if ctx.tier != "thorough":
+        return {}
+    import _driver
+    rng = _driver.Rng(ctx.seed).fork("C08-extra")
+    B = BUF
+    viol, runs = [], 0
+    jobs = []
+    # (a) many integer tokens, (b) many lines with CR LF / lone CR / empty lines, around 2.5 MB each
+    n_tok = 150000
+    toks = [int_token(rng, "i64") for _ in range(n_tok)]
+    data_a = b"".join(t + rng.choice(SEPS) for t in toks)
+    exp_a = "B%d v%d %s e:1" % (B, n_tok, " ".join("i:%d" % int(t) for t in toks))
+    jobs.append(("tokens", data_a, ["v:%d:i64" % n_tok, "e"], exp_a))
+    lines = []
+    for _ in range(200000):
+        k = rng.below(8)
+        lines.append(bytes(rng.choice(list(b"ab \r\t1-")) for _ in range(rng.choice([0, 1, 3, 8, 20]))) + (b"\r\n" if k < 3 else b"\n"))
+    data_b = b"".join(lines) + b"tail\r"
+    ref = py_lines(data_b)
+    exp_b = "B%d L%d %s e:1" % (B, len(ref), " ".join("=" + x.hex() for x in ref))
+    jobs.append(("lines", data_b, ["L", "e"], exp_b))
+    for name, data, ops, expected in jobs:
+        n = len(data)
+        scheds = {"one-read": [n], "bytewise": [1] * n, "buf-1": [B - 1] * (n // (B - 1) + 1), "buf+1": [B + 1] * (n // (B + 1) + 1),
+                  "random": random_sched(rng, n, 3 * B), "small-random": random_sched(rng, min(n, 400000), 7) + [n],
+                  "intr-bytewise": [x for _ in range(min(n, 300000)) for x in ("I", 1)] + [n]}
+        for sname, sch in scheds.items():
+            c = case(data, sch, ops)
+            for profile in PROFILES:
+                out = _driver.run_impl(ctx.bins[profile], [harness_line(c)])[0]
+                runs += 1
+                if out != expected:
+                    pos = next((i for i, (x, y) in enumerate(zip(out.split(), expected.split())) if x != y), -1)
+                    viol.append({"name": "large-%s-%s-%s" % (name, sname, profile), "kind": "counterexample", "nofail": False,
+                                 "payload": {"what": "large input (%d bytes): the implementation's result under schedule '%s' differs from "
+                                                     "the reference at value token %d" % (n, sname, pos),
+                                             "profile": profile, "ops": ops, "schedule_kind": sname,
+                                             "got": " ".join(out.split()[max(0, pos - 2):pos + 3]),
+                                             "expected": " ".join(expected.split()[max(0, pos - 2):pos + 3])}})
+    return {"coverage": {"large_input_runs": runs, "large_input_bytes": [len(j[1]) for j in jobs]}, "violations": viol[:3]}
 
 
 MANIFEST = {
     "text": "Coq model of rlib_io::reader::Reader (buffer with stale contents, refill with compaction and the Interrupted retry "
             "loop, peek, skip_whitespace, the 12 integer readers with checked arithmetic, String, char, tuples, read_vec, "
-            "read_line(s), is_eof) driven by a source of Data/Interrupted events, and a pure parser on the byte string as the "
-            "specification. The model is tied to the code on every run: the executor serves scripted delivery schedules to the "
-            "real Reader and Coq checks model = implementation and implementation |= pure parser on every case.",
+            "read_line(s), is_eof) driven by a source of Data/Interrupted events, for every buffer capacity >= 1; the "
+            "specification is a pure parser on the byte string. Proved (no axioms): c08_simulation_step (invariant: live part of "
+            "the buffer ++ undelivered bytes = remaining parser input), c08_refines_parser and c08_schedule_independent (any two "
+            "schedules with the same bytes, any placement of Interrupted, any two capacities: equal results, equal to the parser's, "
+            "panics included), c08_parse_no_overflow / c08_read_int_spec (every in-range decimal token, incl. the minimum of a signed "
+            "type, passes the checked digit loop; anything else panics), c08_read_line_spec, c08_read_lines_spec, c08_is_eof_spec, "
+            "c08_state_is_flat_array (the model's state is the Rust (buf, begin, end, eof) with a flat array), "
+            "c08_model_implies_spec, and the two repaired defects as statements about named old variants. The model is tied to "
+            "the code on every run: the executor serves scripted delivery schedules to the real Reader (debug and release) and Coq "
+            "checks model = implementation and implementation |= pure parser on every case.",
     "level_note": "Trusted: Coq kernel + vm_compute; the Rust executor and the Python case printer; std::io::Read modelled as "
-                  "an oracle with the documented contract; theorems are about the model, the correspondence is sampled.",
+                  "an oracle with the documented contract (no empty chunk before the end; Interrupted delivers nothing); the "
+                  "theorems carry the hypothesis input length < 2^130 (loop fuel); theorems are about the model, the "
+                  "correspondence is sampled; release-profile behaviour outside the contract (wrapping, no assertions) is "
+                  "compared only up to the model's panic.",
     "technique": "Coq proof over Gallina state-machine model + vm_compute correspondence batches against the Rust crate",
 }
